@@ -17,10 +17,17 @@ type Field struct {
 	Value float64
 }
 
+// Hist is a histogram (compound field): Values[i] observations at or below Bounds[i], last bound +Inf.
+type Hist struct {
+	Bounds, Values       []float64
+	Min, Max, Sum, Count float64
+}
+
 type Point struct {
 	NS, Name  string
 	Tags      map[string]string
 	Fields    []Field
+	Hist      *Hist
 	Timestamp int64
 }
 
@@ -37,6 +44,10 @@ func Block(p Point) ([]byte, error) {
 	}
 	for _, f := range p.Fields {
 		m.SimpleFields = append(m.SimpleFields, &protoMetricsV1.SimpleField{Name: f.Name, Type: f.Type, Value: f.Value})
+	}
+	if p.Hist != nil {
+		m.CompoundField = &protoMetricsV1.CompoundField{Min: p.Hist.Min, Max: p.Hist.Max, Sum: p.Hist.Sum, Count: p.Hist.Count,
+			Values: append([]float64(nil), p.Hist.Values...), ExplicitBounds: append([]float64(nil), p.Hist.Bounds...)}
 	}
 	cv := metric.NewProtoConverter(models.NewDefaultLimits())
 	b, err := cv.MarshalProtoMetricV1(m)
